@@ -217,7 +217,8 @@ fn changed(v: &J, variant: u8) -> J {
 fn mutations_of(signed: &J, own_type: &str) -> Vec<Mut> {
     let mut v = Vec::new();
     for p in signed.all_paths() {
-        let node = signed.path(&p).unwrap();
+        // (below a duplicated member name a path resolves to the first of the two only)
+        let Some(node) = signed.path(&p) else { continue };
         match node {
             J::O(m) => {
                 v.push(Mut::Insert(p.clone()));
@@ -316,10 +317,53 @@ fn apply(signed: &J, m: &Mut) -> J {
 #[derive(Clone, Debug)]
 enum Case {
     Mutation { role: &'static str, m: Mut, consistent: bool },
+    Multi { role: &'static str, seed: u64, consistent: bool },
     Benign { role: &'static str, kind: &'static str, consistent: bool },
     ExtraLevel { level: &'static str, consistent: bool },
+    Spelling { role: &'static str, consistent: bool },
     Swap { serve_as: &'static str, from: &'static str },
     Baseline { rich: bool, shared: bool, consistent: bool },
+}
+
+/// Another spelling of the same encoded byte strings: upper-case hex for key identifiers (member names
+/// of every `keys` table, entries of every `keyids` list) and for digests inside `hashes`.
+fn respell_hex(j: &mut J, in_keys_table: bool) {
+    match j {
+        J::O(m) => {
+            for (k, v) in m.iter_mut() {
+                let name = k.clone();
+                if in_keys_table {
+                    *k = k.to_uppercase();
+                    continue;
+                }
+                match name.as_str() {
+                    "keyids" => {
+                        for e in v.items_mut() {
+                            if let J::S(s) = e {
+                                *s = s.to_uppercase();
+                            }
+                        }
+                    }
+                    "hashes" => {
+                        for (_, hv) in v.members_mut() {
+                            if let J::S(s) = hv {
+                                *s = s.to_uppercase();
+                            }
+                        }
+                    }
+                    "keys" => respell_hex(v, true),
+                    "custom" => {}
+                    _ => respell_hex(v, false),
+                }
+            }
+        }
+        J::A(a) => {
+            for e in a {
+                respell_hex(e, false);
+            }
+        }
+        _ => {}
+    }
 }
 
 fn own_type(role: &str) -> &'static str {
@@ -507,6 +551,72 @@ fn run_case(w: &mut Worker, c: &Case) -> CaseOut {
             out.desc = Some(obj! {"kind" => "single-point mutation inside the signed portion", "role" => *role, "mutation" => m.kind(), "path" => pc.as_str(), "detail" => format!("{m:?}"), "observed" => observed});
             w.cleanup(&dir);
         }
+        Case::Multi { role, seed, consistent } => {
+            // two or three mutations composed: each next one is drawn from the mutation space of the
+            // already mutated document, so that compensating and overlapping edits occur
+            let wd = world(true, false, *consistent);
+            let (path, env) = &wd.docs[role];
+            let s = env.at("signed");
+            let mut rng = Rng::new(*seed);
+            let k = 2 + (rng.below(3) == 0) as usize;
+            let mut ms = s.clone();
+            let mut kinds: Vec<&'static str> = Vec::new();
+            let mut pcs: Vec<String> = Vec::new();
+            let mut detail = Vec::new();
+            for _ in 0..k {
+                let all = mutations_of(&ms, own_type(role));
+                let m = all[rng.below(all.len() as u64) as usize].clone();
+                ms = apply(&ms, &m);
+                kinds.push(m.kind());
+                pcs.push(path_class(&m.path()));
+                detail.push(format!("{m:?}"));
+            }
+            let mut e2 = env.clone();
+            e2.set("signed", ms.clone());
+            let mut files = wd.files.clone();
+            files.insert(path.clone(), render(&e2, Style::Pretty));
+            let (r, dir) = load_world(w, files, &wd.shipped);
+            let mut observed = "rejected".to_string();
+            let unchanged = refcanon(&ms).ok() == refcanon(s).ok();
+            if let Some(stored) = stored_signed(&dir, role) {
+                if !unchanged && refcanon(&stored).ok() == refcanon(&ms).ok() {
+                    out.viol(
+                        format!("used-unsigned:role={role}:mutation=composed:stored-as-trusted"),
+                        format!("the mutated {role} document was stored in the datastore as trusted; mutations {detail:?}"),
+                    );
+                }
+            }
+            match &r {
+                Err(client::LoadErr::Watchdog) => out.inconc("watchdog"),
+                Err(_) => {}
+                Ok(repo) if !accepted_as(repo, role) => observed = "not accepted (previous root kept / role not loaded)".into(),
+                Ok(repo) => {
+                    let e = exposed(repo, role);
+                    let same = e.as_ref().and_then(|e| refcanon(e).ok()) == refcanon(s).ok();
+                    if !same {
+                        out.viol(
+                            format!("used-unsigned:role={role}:mutation=composed:{}", kinds.join("+")),
+                            format!("mutated document accepted and exposed content differs from the signed content; mutations {detail:?}"),
+                        );
+                        observed = "ACCEPTED with content that was not signed".into();
+                    } else if let Err(err) = typed_view_ok(repo, role, s) {
+                        out.viol(format!("accessor-differs-from-signed:role={role}:mutation=composed"), err);
+                    } else {
+                        observed = "accepted, exposed content identical to the signed content".into();
+                        out.h("accepted-without-effect");
+                        if unchanged {
+                            out.h("composed-mutations-cancel");
+                        }
+                    }
+                }
+            }
+            out.h("mutation=composed");
+            out.h(format!("role={role}"));
+            out.fingerprint = Some(format!("{role}|composed|{}|{}|{consistent}", kinds.join("+"), pcs.join("+")));
+            out.nontrivial = true;
+            out.desc = Some(obj! {"kind" => "composed mutations inside the signed portion", "role" => *role, "mutations" => J::A(detail.iter().map(|d| J::from(d.as_str())).collect()), "observed" => observed});
+            w.cleanup(&dir);
+        }
         Case::Benign { role, kind, consistent } => {
             let wd = world(true, false, *consistent);
             let (path, env) = &wd.docs[role];
@@ -611,6 +721,54 @@ fn run_case(w: &mut Worker, c: &Case) -> CaseOut {
             out.desc = Some(obj! {"kind" => "unknown/optional member written by a conforming signer", "level" => *level, "observed" => match &r { Ok(_) => "ok".to_string(), Err(e) => e.text() }});
             w.cleanup(&dir);
         }
+        Case::Spelling { role, consistent } => {
+            let wd = world(true, false, *consistent);
+            let signer = match *role {
+                "root" => 0,
+                "timestamp" => 1,
+                "snapshot" => 2,
+                "targets" => 3,
+                "d1" => 5,
+                _ => 6,
+            };
+            let (path, env) = &wd.docs[role];
+            let mut s = env.at("signed").clone();
+            respell_hex(&mut s, false);
+            let respelled = render(&s, Style::Compact) != render(env.at("signed"), Style::Compact);
+            let e2 = sign_with(&s, &[signer]);
+            let mut files = wd.files.clone();
+            let bytes = render(&e2, Style::Pretty);
+            if *role == "d2" {
+                // the snapshot pins d2.json by digest: publish a snapshot for the respelled document
+                let (sp, senv) = &wd.docs["snapshot"];
+                let mut ss = senv.at("signed").clone();
+                ss.at_mut("meta").at_mut("d2.json").at_mut("hashes").set("sha256", crate::json::sha256_hex(&bytes));
+                files.insert(sp.clone(), render(&sign_with(&ss, &[2]), Style::Pretty));
+            }
+            files.insert(path.clone(), bytes);
+            let (r, dir) = load_world(w, files, &wd.shipped);
+            match &r {
+                Err(client::LoadErr::Watchdog) => out.inconc("watchdog"),
+                Err(e) => out.viol(
+                    format!("reject-benign:uppercase-hex:role={role}"),
+                    format!("validly signed document spelling key identifiers / digests in upper-case hex refused: {}", e.text()),
+                ),
+                Ok(repo) => {
+                    if !accepted_as(repo, role) {
+                        out.viol(format!("reject-benign:uppercase-hex:role={role}"), "validly signed respelled document not accepted".to_string());
+                    } else if exposed(repo, role).and_then(|e| refcanon(&e).ok()) != refcanon(&s).ok() {
+                        out.viol(format!("exposed-differs-from-signed:role={role}:benign=uppercase-hex"), "accepted but exposed content differs from the signed spelling".to_string());
+                    }
+                }
+            }
+            if respelled {
+                out.h("benign=uppercase-hex");
+            }
+            out.fingerprint = Some(format!("spelling|{role}|{consistent}"));
+            out.nontrivial = respelled;
+            out.desc = Some(obj! {"kind" => "validly signed document with upper-case hex spelling of key ids and digests", "role" => *role, "observed" => match &r { Ok(_) => "ok".to_string(), Err(e) => e.text() }});
+            w.cleanup(&dir);
+        }
         Case::Swap { serve_as, from } => {
             let wd = world(false, true, false);
             let (path, _) = &wd.docs[serve_as];
@@ -683,6 +841,9 @@ pub fn run(cfg: &Cfg) -> i32 {
         for level in ["targets.delegations", "targets.delegations.roles[]", "targets.targets.*.custom-empty", "d1.targets.*.custom-empty"] {
             cases.push(Case::ExtraLevel { level, consistent });
         }
+        for role in ROLES {
+            cases.push(Case::Spelling { role, consistent });
+        }
     }
     for (a, b) in [
         ("timestamp", "snapshot"),
@@ -697,6 +858,11 @@ pub fn run(cfg: &Cfg) -> i32 {
     ] {
         cases.push(Case::Swap { serve_as: a, from: b });
     }
+    let ncomposed = cfg.tier.pick(6_000u64, 400_000);
+    for g in 0..ncomposed {
+        let seed = crate::rng::fnv(&format!("c12-composed-{}-{g}", cfg.seed));
+        cases.push(Case::Multi { role: ROLES[(g % 6) as usize], seed, consistent: (g / 6) % 2 == 1 });
+    }
     let budget = cfg.tier.pick(Duration::from_secs(300), Duration::from_secs(1500));
     let mut ev = par_run(cfg, cases.len() as u64, budget, |w, i| cases.get(i as usize).map(|c| run_case(w, c)));
     ev.exhaustive = true;
@@ -705,13 +871,13 @@ pub fn run(cfg: &Cfg) -> i32 {
         J::Bool(!ev.inconclusive.contains_key("wall-budget-reached")),
     ));
     let mut required: Vec<String> = Vec::new();
-    for m in ["scalar", "member-delete", "member-insert", "member-duplicate-first", "member-duplicate-last", "array-delete", "array-duplicate", "array-reorder", "array-insert", "type-tag"] {
+    for m in ["scalar", "member-delete", "member-insert", "member-duplicate-first", "member-duplicate-last", "array-delete", "array-duplicate", "array-reorder", "array-insert", "type-tag", "composed"] {
         required.push(format!("mutation={m}"));
     }
     for r in ROLES {
         required.push(format!("role={r}"));
     }
-    for b in ["compact", "unicode-escapes", "shuffled", "extra-signature-unknown-key", "extra-envelope-member", "nfc-respelling"] {
+    for b in ["compact", "unicode-escapes", "shuffled", "extra-signature-unknown-key", "extra-envelope-member", "nfc-respelling", "uppercase-hex"] {
         required.push(format!("benign={b}"));
     }
     required.push("baseline:rich=true:shared=false".into());
@@ -722,7 +888,7 @@ pub fn run(cfg: &Cfg) -> i32 {
         ev,
         Finish {
             level: "exploration",
-            rule: "for each role type (root at a rotation hop, timestamp, snapshot, targets, two delegated roles) a validly signed document carrying unknown members at every level tough carries along; EVERY single-point mutation of its signed portion is enumerated from the JSON tree (each scalar changed in two ways, each member deleted / duplicated first / duplicated last, a member inserted into every object, each array element deleted / duplicated, arrays re-ordered / extended, the type tag swapped to each other type), served in place, and the real client's outcome recorded: accepted => the Serialize view AND typed accessors of what the client exposes must equal the signed content (canonical comparison). Benign rewrites (compact, \\u escapes, shuffled members, extra signature entries, extra envelope member) must stay acceptable; optional/unknown members a conforming signer may write (inside delegations, role entries, empty custom) must stay acceptable; documents swapped between roles sharing one key must be refused. Fingerprint = (role, mutation kind, JSON path class, detail).",
+            rule: "for each role type (root at a rotation hop, timestamp, snapshot, targets, two delegated roles) a validly signed document carrying unknown members at every level tough carries along; EVERY single-point mutation of its signed portion is enumerated from the JSON tree (each scalar changed in two ways, each member deleted / duplicated first / duplicated last, a member inserted into every object, each array element deleted / duplicated, arrays re-ordered / extended, the type tag swapped to each other type), served in place, and the real client's outcome recorded: accepted => the Serialize view AND typed accessors of what the client exposes must equal the signed content (canonical comparison). On top of the complete single-point space, seeded compositions of two or three mutations (each drawn from the mutation space of the already mutated document) are judged the same way. Benign rewrites (compact, \\u escapes, shuffled members, extra signature entries, extra envelope member) must stay acceptable; optional/unknown members a conforming signer may write (inside delegations, role entries, empty custom) must stay acceptable; documents swapped between roles sharing one key must be refused. Fingerprint = (role, mutation kind, JSON path class, detail).",
             assumptions: vec![
                 "'identical to what the signers signed' is judged on the canonical form (NFC respelling is an observation, not a violation)".into(),
                 "the `roles` map of root is not extended with unknown roles (the TUF specification fixes its member set)".into(),
